@@ -5,7 +5,7 @@ V = os.path.dirname(os.path.dirname(os.path.abspath(__file__)))
 props = [json.loads(l) for l in open(os.path.join(V, 'properties.jsonl'))]
 
 T = {
- 'C01': ("generated-input search for panics, aborts, overflows and hangs: structured mutations of valid encodings, AVP-record lists, the complete type x payload-length grid and all inputs of <= 2 octets, each under all 8 option sets and as a bare AVP list, in both build profiles, in child processes so that aborts and hangs are observed; inputs of 32 KiB .. 135 KiB, every 16-bit code of six enumerated fields, a reader that declines bytes() requests and a 64 KiB-stack thread are part of the quick tier; thorough adds coverage-guided libFuzzer campaigns (ASan, debug assertions)",
+ 'C01': ("generated-input search for panics, aborts, overflows and hangs: structured mutations of valid encodings, AVP-record lists, the complete type x payload-length grid and all inputs of <= 2 octets, each under all 8 option sets and as a bare AVP list, in both build profiles, in child processes so that aborts and hangs are observed; inputs of 32 KiB .. 135 KiB, every 16-bit code of six enumerated fields, a reader that declines bytes() requests, a 64 KiB-stack thread, and calls made from a destructor during unwinding and from thread-local destructors at thread exit are part of the quick tier; thorough adds coverage-guided libFuzzer campaigns (ASan, debug assertions)",
          "sampling outside the enumerated sub-spaces; non-termination decided by a 20 s watchdog with re-confirmation",
          "property-based testing (proptest byte tapes + exhaustive grids) with a crash/abort/hang oracle; libFuzzer in thorough"),
  'C02': ("every decode is run through a harness-supplied monitoring Reader that checks each unchecked request against the octets remaining (in every build mode), and through two further conforming readers (SliceReader, an owned-Vec reader); zero contract violations and identical results are required; per-kind try_read on every payload length 0..40 is exhaustive; reveal's private reader is observed by debug-assertion builds in child processes",
@@ -14,16 +14,16 @@ T = {
  'C03': ("round-trip of generated control messages (0..10 921 AVPs, all 39 kinds + opaque hidden AVPs, boundary-biased values and specially treated characters, messages up to exactly 65 535 octets, writers that already hold up to ~200 000 octets, unrelated and refused codec calls on the same thread just before) and single AVPs through encode then strict decode, compared with the crate's own PartialEq and field for field",
          "sampling of the value space; values are built through public fields/constructors only",
          "property-based testing, round-trip oracle"),
- 'C04': ("round-trip of generated data messages over all 16 L/S/O/P flag combinations, payloads from 1 octet to the 65 535-octet total, exact or absent Length, offsets 0..|data|-1",
+ 'C04': ("round-trip of generated data messages over all 16 L/S/O/P flag combinations, payloads from 1 octet to the 65 535-octet total (and 16..40 MiB without a Length field), exact or absent Length, offsets 0..|data|-1; the same encode / decode repeated on one thread until more than 2^32 octets have passed through it",
          "sampling of the value space",
          "property-based testing, round-trip oracle with offset-skipping expectation"),
- 'C05': ("differential testing of the decoder against an independent executable reference decoder on generated near-valid inputs, accepted non-canonical inputs, AVP-record lists, the complete type x payload-length grid and all 65 536 flag words, under all 8 option sets: acceptance, every field and octets consumed must agree",
+ 'C05': ("differential testing of the decoder against an independent executable reference decoder on generated near-valid inputs, accepted non-canonical inputs, AVP-record lists, the complete type x payload-length grid and all 65 536 flag words, under all 8 option sets: acceptance, every field and octets consumed must agree; consecutive inputs include pairs that common weak digests (sum, xor, 31/33-polynomial, Adler-32, CRC-32, FNV-1a-32) cannot tell apart",
          "the reference decoder (vcore::spec) is the trusted base; sampling outside the enumerated sub-spaces",
          "property-based differential testing against a reference model"),
  'C06': ("differential testing of the encoder against an independent reference encoder, byte for byte, on generated AVPs of every kind, control messages and data messages (with arbitrary Length / Offset Size values)",
          "the reference encoder (vcore::spec) is the trusted base",
          "property-based differential testing against a reference model"),
- 'C07': ("an independent length walker over the emitted octets checks every length field against the extent it describes, for in-range values and for generated oversize values (AVPs of 1024..~5000 octets, message bodies crossing 65 535, hide() at the limits): either the call fails loudly or every length is exact",
+ 'C07': ("an independent length walker over the emitted octets checks every length field against the extent it describes, for in-range values and for generated oversize values (AVPs of 1024..~5000 octets, message bodies crossing 65 535, hide() at the limits, values of 2^31 / 2^32 + n octets through a writer that keeps only the head): either the call fails loudly or every length is exact, also when the call is made from a destructor while the thread unwinds",
          "'fails loudly' observed as a panic",
          "property-based testing with an independent length-walker oracle and oversize generators"),
  'C08': ("metamorphic testing: accepted messages followed by arbitrary suffixes (up to 64 KiB, and a 4 GiB lazily mapped buffer), back-to-back message streams (from the reference and from the crate's own encoder), and concatenations of well-delimited AVP records (good and bad) must decode exactly as their parts",
@@ -38,10 +38,10 @@ T = {
  'C11': ("hide then reveal (directly and through encode/decode of the hidden AVP) on generated AVPs of all 39 kinds, secrets incl. empty, paddings steered to block counts 1, 2, 3, >= 4 and exact multiples of 16; identity cases for hidden/non-hidden arguments",
          "sampling",
          "property-based testing, round-trip oracle"),
- 'C12': ("differential testing of hide (forward) and reveal (backward, on random and crafted ciphertexts) against an independent implementation of RFC 2661 section 4.3 with the harness's own MD5; secrets of 0..8192 octets, related-secret sequences, degenerate ciphertext blocks, four concurrent threads; plus determinism and independence from the unused padding tail",
+ 'C12': ("differential testing of hide (forward) and reveal (backward, on random and crafted ciphertexts) against an independent implementation of RFC 2661 section 4.3 with the harness's own MD5; secrets of 0..8192 octets, related-secret sequences, degenerate ciphertext blocks, four concurrent threads, length paddings of 16..48 MiB, secrets that weak digests cannot tell apart, calls from unwinding and thread-exit destructors; plus determinism and independence from the unused padding tail",
          "the harness's MD5 and reference cipher are the trusted base (self-tested at start-up)",
          "property-based differential testing against an independent cipher implementation"),
- 'C13': ("generated random and crafted hidden values (crafted = chosen plaintext incl. every interesting original-length value, encrypted with the reference key schedule) are revealed in child processes in both build profiles: no panic/abort, right attribute type, the three stated rejections",
+ 'C13': ("generated random and crafted hidden values (crafted = chosen plaintext incl. every interesting original-length value, encrypted with the reference key schedule) are revealed in child processes in both build profiles: no panic/abort, right attribute type, the three stated rejections; also when called from unwinding and thread-exit destructors",
          "sampling; crafted inputs reach the length-field regions random ciphertexts hit with probability < 1 %",
          "property-based testing with crafted-ciphertext generators, crash oracle + rejection predicates"),
  'C14': ("all 65 536 flag words x 3 bodies x 8 option sets (exhaustive) plus generated inputs: monotonicity over the option lattice, exactness of each check against the same options with that check off, independence from the bits owned by disabled checks, and try_read = version-only",
@@ -59,7 +59,7 @@ T = {
  'C18': ("model-based testing: generated operation sequences on SliceReader (pool of readers incl. sub-readers, boundary arguments) and VecWriter (appends and positional overwrites incl. out-of-range and wrapping offsets) against a reference cursor / Vec model",
          "state after a refused bytes() request is not asserted",
          "model-based (stateful) property testing against a reference cursor / vector"),
- 'C19': ("generated call histories (decode, AVP-list decode, encode, hide, reveal, error rendering) run with file descriptors 1 and 2 redirected to a memory file or a pseudo-terminal: no octet may be written; every call must return its canonical result in any order and on 8 concurrent threads",
+ 'C19': ("generated call histories (decode, AVP-list decode, encode, hide, reveal, error rendering) run with file descriptors 1 and 2 redirected to a memory file or a pseudo-terminal: no octet may be written; every call must return its canonical result in any order, on 8 concurrent threads, from a destructor while the thread unwinds and from thread-local destructors at thread exit",
          "thread schedules are the OS's; the crate has no synchronisation or shared state a controlled scheduler could intercept",
          "property-based testing over call histories with fd-level output capture and order/thread-independence oracle"),
  'C20': ("single-fault injection into generated valid messages (8 fault kinds with offending values) with the exact expected error, through the message decoder and the bare AVP-list decoder; complete enumeration of all 655 631 error values for rendering, AVP-kind names checked against the crate's actual dispatch",
